@@ -293,12 +293,15 @@ CLAIMED = {
          "(prio_pop_fifo_within_windows, via walk_spec over walkReadyInOrder), a Pop reporting nothing touched no queue, window "
          "or throttle limit (prio_pop_none_keeps), control frames first (control_first_prio); Pop changes exactly ONE queue — the "
          "head of one node's queue leaves or is shortened by the piece, every other queue is untouched (prio_pop_exact) — and Push "
-         "appends to exactly one queue in every reachable state (prio_push_exact_reachable)"),
+         "appends to exactly one queue in every reachable state (prio_push_exact_reachable). Facts REGENERATED from writesched.go / "
+         "writesched_priority.go on every run — Consume's tests in order, the callback of the priority Pop statement by statement, default "
+         "weight and configuration, initial throttle limits — are pinned (gen_ok_consume, gen_ok_prio_pop, gen_ok_prio_defaults) and tied "
+         "to the model (model_defaults, model_budget, model_throttle)"),
    note=("PARTIAL: conservation over whole operation sequences is proved for round robin and random; for the priority scheduler "
          "per-Pop FIFO / windows / control-first and the tree clause are theorems, conservation over sequences and 'nothing only when "
          "nothing is sendable' are decided by the trace oracle on the differential. sort.Sort is modelled as insertion sort (<= 12 siblings). "
          "Found and fixed D7. Trusted: Lean kernel + standard axioms; harness"),
-   technique="Lean 4 invariant proofs over operation sequences (ring conservation, priority-tree invariant) + exact differentials through package-internal access",
+   technique="Lean 4 invariant proofs over operation sequences (ring / random conservation, priority-tree invariant, per-Pop exactness) over models tied by regenerated facts + exact differentials through package-internal access + trace oracle",
    design='7/C20'),
 }
 ALL = [f'C{i:02d}' for i in range(1, 21)]
